@@ -175,9 +175,11 @@ def run(ctx):
         sizes = BIG if ctx.tier == "thorough" else [32768, 65536, 70000]
         j = 0
         for size in sizes:
-            for op, k in ([("nth", 100), ("nth", 40000), ("nth", -33000), ("head", 3), ("tail", 2)] if ctx.tier == "thorough" else [("nth", 40000), ("tail", 2)]):
+            # n itself beyond 32767 / 65535 as well: the per-group fill counters must not be narrower than n
+            for op, k in ([("nth", 100), ("nth", 40000), ("nth", -33000), ("head", 3), ("tail", 2), ("head", 66000), ("tail", 65536), ("head", 32768)]
+                          if ctx.tier == "thorough" else [("nth", 40000), ("tail", 2), ("head", 66000), ("tail", 65536)]):
                 j += 1
-                if abs(k) >= size:
+                if abs(k) >= size and op == "nth":
                     k = size // 2 + 1000 if k > 0 else -(size // 2 + 1000)
                 case = {"big": True, "n": size, "op": op, "params": {"n": k}, "seed": int(ctx.seed) * 1000 + j, "noshrink": True,
                         "keys": [], "mask": None, "val": {"dtype": "int64", "vals": []}}
